@@ -53,11 +53,18 @@ def path_osc(ctx, job, box):
         ctx.assume(valid_scalar(code0))
         for v in (ord('R'), ord('P'), ESC, BEL, ST):
             ctx.assume(code0 != v)
-        p0 = ctx.bvvar('q0', 32)
-        ctx.assume(valid_scalar(p0))
-        for v in (BEL, ST, ESC):
-            ctx.assume(p0 != v)
-        pre_chars = [0x9d, code0, ord(';'), p0, ord('y'), BEL]
+        qs = []
+        for i in range(2):
+            q = ctx.bvvar('q%d' % i, 32)
+            ctx.assume(valid_scalar(q))
+            for v in (BEL, ST, ESC):
+                ctx.assume(q != v)
+            qs.append(q)
+        # (both payloads are symbolic, so the two strings may also carry the same text)
+        pre_chars = [0x9d, code0, ord(';')] + qs + [BEL]
+        if first == 'osc+ris':
+            # a full reset in between clears title and icon name; the second string must still take effect
+            pre_chars += [ESC, ord('c')]
     chars = ([ESC, ord(']')] if intro == 'esc' else [0x9d]) + [code]
     with_semicolon = job.params.get('semicolon', True)
     if with_semicolon:
@@ -138,7 +145,8 @@ def jobs(tier):
         js.append(Job('%s/bel/nosemicolon' % intro, path_osc, intro=intro, term='bel', npay=0, semicolon=False, prop=PROP))
     # two OSC strings in a row: nothing of the first may leak into the second
     for intro in ('esc', 'c1'):
-        js.append(Job('pair/%s' % intro, path_osc, intro=intro, term='bel', npay=2, first=True, prop=PROP))
+        js.append(Job('pair/%s' % intro, path_osc, intro=intro, term='bel', npay=2, first='osc', prop=PROP))
+    js.append(Job('pair+ris/esc', path_osc, intro='esc', term='bel', npay=2, first='osc+ris', prop=PROP))
     # arbitrary chunking of one representative
     for cut in range(1, 8):
         js.append(Job('cut%d' % cut, path_osc, intro='esc', term='esc\\', npay=2, cut=cut, prop=PROP))
@@ -151,6 +159,7 @@ META = {
               'unconstrained symbolic characters (anything but BEL, ESC, U+009C) or an embedded ESC x pair x each of the '
               'three terminators, followed by one more character; every 2-way cut of one representative; from symbolic '
               'screen states (title/icon/grid/cursor symbolic) on 3x2',
-    'outside': 'payloads longer than 3; OSC codes R/P (Linux palette sequences without a string, covered by C03) and strings without `;` after the code '
+    'outside': 'payloads longer than 3; more than two strings in a row (two strings with symbolic codes and payloads, with and '
+               'without a full reset between them, are covered); OSC codes R/P (Linux palette sequences without a string, covered by C03) and strings without `;` after the code '
                'other than the empty one',
 }
